@@ -85,6 +85,9 @@ func (vc *FnVC) newAllocFacts(a string) {
 	vc.fact(fmt.Sprintf("(> %s 0)", a))
 	vc.decl("allocated0", "(declare-fun allocated0 (Int) Bool)")
 	vc.fact(fmt.Sprintf("(not (allocated0 %s))", a))
+	// a new allocation is a whole object, never a field or element of another one
+	vc.decl("reftag", "(declare-fun reftag (Int) Int)")
+	vc.fact(fmt.Sprintf("(= (reftag %s) 0)", a))
 	// nil counts as pre-existing: sub-objects of a nil pointer never coincide with new objects
 	vc.decl("allocated0$nil", "(assert (allocated0 0))")
 	for _, o := range vc.allocRefs {
@@ -296,7 +299,9 @@ func (vc *FnVC) instr(in ssa.Instruction, idx int) {
 				msg = constant.StringVal(c.Value)
 			}
 		}
-		if vc.fc != nil {
+		if vc.fc != nil && vc.fc.MayPanic {
+			vc.assume("explicit panic statements of " + vc.fnName() + " are documented behaviour (maypanic): those paths end without obligation")
+		} else if vc.fc != nil {
 			key := "panic-unreachable"
 			if msg != "" {
 				key += "(" + msg + ")"
@@ -722,6 +727,20 @@ func (vc *FnVC) bitop(in *ssa.BinOp, x, y Term) {
 			return
 		}
 	}
+	if unsigned && in.Op != token.AND_NOT {
+		// operands whose set bits are syntactically disjoint (x a multiple of 2^k by construction,
+		// y below 2^k by type or construction): x|y == x^y == x+y exactly, x&y == 0
+		tzx, ubx := bitShape(in.X, 0)
+		tzy, uby := bitShape(in.Y, 0)
+		if tzx >= uby || tzy >= ubx {
+			if in.Op == token.AND {
+				vc.define(in, "0")
+			} else {
+				vc.define(in, fmt.Sprintf("(+ %s %s)", x.S, y.S))
+			}
+			return
+		}
+	}
 	name := map[token.Token]string{token.AND: "and", token.OR: "or", token.XOR: "xor", token.AND_NOT: "andnot"}[in.Op]
 	if !unsigned {
 		vc.defineFresh(in)
@@ -759,6 +778,71 @@ func (vc *FnVC) bitop(in *ssa.BinOp, x, y Term) {
 		}
 	}
 	vc.assume("bit-lemma bridge: for non-negative a, b with a a multiple of 2^k and b < 2^k: a|b == a^b == a+b and a&b == 0 (standard bit-vector fact, used as an arithmetic axiom)")
+}
+
+// bitShape gives, from the syntactic construction of an unsigned value, a number tz of
+// guaranteed trailing zero bits and an upper bound ub on its bit length (value < 2^ub).
+// (0, width) is the trivial answer; signed or unknown values get (0, 64).
+func bitShape(v ssa.Value, depth int) (tz, ub int) {
+	bits := 64
+	unsignedT := false
+	if lo, _, ok := intRange(v.Type()); ok && lo.Sign() == 0 {
+		unsignedT = true
+		bits, _ = intBits(v.Type())
+	}
+	if c, ok := isConstVal(v); ok {
+		if c.Sign() < 0 {
+			return 0, 64
+		}
+		if c.Sign() == 0 {
+			return 64, 0
+		}
+		return int(c.TrailingZeroBits()), c.BitLen()
+	}
+	if !unsignedT || depth > 12 {
+		return 0, bits
+	}
+	minI := func(a, b int) int {
+		if a < b {
+			return a
+		}
+		return b
+	}
+	maxI := func(a, b int) int {
+		if a > b {
+			return a
+		}
+		return b
+	}
+	switch x := v.(type) {
+	case *ssa.Convert:
+		if lo, _, ok := intRange(x.X.Type()); ok && lo.Sign() == 0 {
+			t, u := bitShape(x.X, depth+1)
+			return t, minI(u, bits)
+		}
+	case *ssa.BinOp:
+		switch x.Op {
+		case token.SHL:
+			if k, ok := isConstVal(x.Y); ok && k.IsInt64() && k.Int64() >= 0 && k.Int64() < 64 {
+				t, u := bitShape(x.X, depth+1)
+				return minI(t+int(k.Int64()), 64), minI(u+int(k.Int64()), bits)
+			}
+		case token.SHR:
+			if k, ok := isConstVal(x.Y); ok && k.IsInt64() && k.Int64() >= 0 && k.Int64() < 64 {
+				t, u := bitShape(x.X, depth+1)
+				return maxI(t-int(k.Int64()), 0), maxI(u-int(k.Int64()), 0)
+			}
+		case token.OR, token.XOR:
+			t1, u1 := bitShape(x.X, depth+1)
+			t2, u2 := bitShape(x.Y, depth+1)
+			return minI(t1, t2), maxI(u1, u2)
+		case token.AND:
+			t1, u1 := bitShape(x.X, depth+1)
+			t2, u2 := bitShape(x.Y, depth+1)
+			return maxI(t1, t2), minI(u1, u2)
+		}
+	}
+	return 0, bits
 }
 
 type bitUse struct {
